@@ -376,7 +376,7 @@ def _sharing(p):
         seen = {}
         for cname, attr in (("A", "s"), ("A", "k"), ("B", "many"), ("B", "k2"), ("B", "u"), ("C", "additional_properties")):
             cls = getattr(models, cname)
-            h = typing.get_type_hints(cls, vars(__import__("sys").modules[cls.__module__]) | {"Shared": shared, "Kind": kind})
+            h = pyval.hints(cls)
             seen[(cname, attr)] = _classes_in(h[attr], set())
         ep = res.endpoints[0]
         mod = wire.endpoint_module(sb, ep)
